@@ -35,7 +35,12 @@ QMonClauses(m, ev) ==
             <<"C08-a-closed-connection-is-never-handed-out",
                   (ev.m = "get" /\ ev.t \in DOMAIN m.deadatcall) => ev.o \notin m.deadatcall[ev.t]>>,
             <<"C09-a-connection-idle-longer-than-the-timeout-is-never-handed-out",
-                  (ev.m = "get" /\ m.idle > 0 /\ ev.o \in DOMAIN m.rel) => ~(m.now - m.rel[ev.o] > m.idle)>> >>
+                  (ev.m = "get" /\ m.idle > 0 /\ ev.o \in DOMAIN m.rel) => ~(m.now - m.rel[ev.o] > m.idle)>>,
+            (* expiry is acted on at a checkout: once get() has returned, nothing that has sat in the pool longer *)
+            (* than the timeout is still pooled (sequential histories: the last snapshot is the pool after get)   *)
+            <<"C09-after-a-checkout-no-idle-expired-connection-stays-pooled",
+                  (ev.m = "get" /\ m.idle > 0) =>
+                     \A o \in SeqSet(m.free) : o \in DOMAIN m.rel => ~(m.now - m.rel[o] > m.idle)>> >>
     [] ev.e = "tick" -> << >>
     [] ev.e = "raise" ->
          << <<"C08-no-internal-error-from-the-pool",
